@@ -159,6 +159,8 @@ def execute(program):
     finally:
         ghost.World.observe_names = None
     w.value_by_eid = True
+    w.lazy = True             # once the roots are fired the library alone decides how long the loop idles ...
+    w.use_idle_double()       # ... over a double of the fall-back's wait: an unbounded wait with tasks pending is a hang
     ghost.World.task_order_reversed = False
     before = handler_table(w)
     res = w.run()
@@ -184,6 +186,8 @@ def judge(program, w, res):
         return bad
     if w.capped:
         bad.append(('no-quiescence', 'still active after %d loop iterations' % w.horizon))
+    if w.hung:
+        bad.append(('hang:idle-forever', '%s: suspended handlers are only stepped again if another thread wakes the loop' % w.hung))
     iters_at = []
     n = 0
     for x in log:
